@@ -21,7 +21,7 @@ META = {
     "technique": "explicit-state reachability to a fixpoint over (type, stored polynomial) states under all unary/binary gate applications on the real sat builders; truth-table oracle per transition",
     "text": "Starting from the variable leaves in every operand form (raw label, dict, PUBO, PCBO, PUBOMatrix; QUBO/QUBOMatrix in the 2-variable run), "
             "every gate is applied to every pair of discovered states until no new (type, dict) state appears: all expression trees of ANY depth with gates "
-            "of arity <= 2 over 2 (quick) / 3 (thorough) variables are covered by induction; 3- and 4-ary applications are enumerated over leaves and "
+            "of arity <= 2 over 2 variables (quick and thorough) and 3 variables (thorough; quick stops the 3-variable search after 3 rounds = expression depth 3) are covered by induction; 3- and 4-ary applications are enumerated over leaves and "
             "negated leaves. Each application's result table must equal the gate's truth function of the operand tables and operands must be unchanged. "
             "Unary and leaf-level applications (thorough: all) are built a second time after the first result was edited in place: same result, operands unmoved.",
     "note": "Bounded: <=3 variables; arity >2 only on leaf-level operands. The closure argument relies on gate results depending only on the operands' (type, dict), "
@@ -137,7 +137,7 @@ def apply_gate(g, exprs, labels, st, cache, recheck=False):
     return (state_key(r) if not viol else None), viol, expr
 
 
-def closure(ctx, nvars, scheme, forms, label):
+def closure(ctx, nvars, scheme, forms, label, max_rounds=None):
     labels = gen.labels_for(scheme, nvars)
     st = ctx.stats
     # level 0: leaves
@@ -155,6 +155,10 @@ def closure(ctx, nvars, scheme, forms, label):
     old = []
     rounds = 0
     while new:
+        if max_rounds is not None and rounds >= max_rounds:
+            ctx.log("%s: stopped after %d rounds with %d unexpanded states (quick tier; the thorough tier runs to the fixpoint)" % (label, rounds, len(new)))
+            st.extra.setdefault("closures", {})[label + " (depth-bounded)"] = {"rounds": rounds, "unexpanded_states": len(new)}
+            break
         rounds += 1
         tasks = []
         for k in new:
@@ -243,18 +247,19 @@ def run(ctx):
     RECHECK_ALL = not ctx.quick
     runs = [(2, "int", ["label", "dict", "PUBO", "PCBO", "PUBOMatrix", "QUBO", "QUBOMatrix"], "2var-int"),
             (2, "str", ["label", "dict", "PUBO", "PCBO", "QUBO"], "2var-str"),
-            (2, "tuple", ["label", "dict", "PUBO", "PCBO"], "2var-tuple-labels")]
+            (2, "tuple", ["label", "dict", "PUBO", "PCBO"], "2var-tuple-labels"),
+            (2, "bool", ["label", "dict", "PUBO"], "2var-bool-labels")]
     if not ctx.quick:
         runs += [(3, "int", ["label", "dict", "PUBO", "PCBO", "PUBOMatrix"], "3var-int"),
                  (3, "rstr", ["label", "dict", "PUBO", "PCBO"], "3var-rstr")]
     else:
-        runs += [(3, "str", ["label"], "3var-str-labels-only")]
+        runs += [(3, "str", ["label"], "3var-str-labels-only-3-rounds")]
     ctx.bounds = {"closures": [{"variables": r[0], "labels": r[1], "leaf_forms": r[2]} for r in runs],
                   "gates": GATES1 + GATESN, "arity": "1 and 2 closed under reachability; 3 over all leaves; 4 over labels and negated labels"}
     ctx.rule = ("state = (type, stored dict); all unary and binary gate applications over all pairs of discovered states until fixpoint; "
                 "non-trivial = state with >= 2 terms")
     for nvars, scheme, forms, label in runs:
-        closure(ctx, nvars, scheme, forms, label)
+        closure(ctx, nvars, scheme, forms, label, max_rounds=3 if (ctx.quick and nvars == 3) else None)
         nary(ctx, nvars, scheme, forms if nvars == 2 or not ctx.quick else ["label"], label + "-nary")
     ctx.exhaustive = True
 
